@@ -265,6 +265,6 @@ def run(ctx: Ctx, rep: Report, tier: str):
     from rules.common import refresh_covers_both_sides
     rep.rule("C02.R17", "a delete never wins over a peer edit that is still in flight: the pre-sync refresh re-reads the quiet side too (C14.W1)", 1)
     section(rep, lambda: refresh_covers_both_sides(ctx, rep, "C02.R17"))
-    from rules.decisions import decision_table
-    rep.rule("C02.R18", "decision table of content-change and conflict handling: upload, conflict detection, split-conflict resolution and the conflict look-ups take each action (return value, handler call, store, graft) under exactly the recorded path condition", 43)
-    section(rep, lambda: decision_table(ctx, rep, "C02.R18", ['SyncManager.handle_hash_diff', 'SyncManager.handle_split_conflict', 'SyncManager.check_disjoint_create', 'SyncManager.get_folder_file_conflict', 'SyncManager._get_parent_conflict', 'SyncManager._get_child_conflict', 'SyncManager._get_untrashed_peers']))
+    from rules.decisions import decision_table, table_sites
+    rep.rule("C02.R18", "decision table of content-change and conflict handling: upload, conflict detection, split-conflict resolution and the conflict look-ups take each action (return value, handler call, store, graft) under exactly the recorded path condition and on the recorded side", table_sites("C02"))
+    section(rep, lambda: decision_table(ctx, rep, "C02.R18", "C02"))
